@@ -41,6 +41,7 @@ class Scen:
     nuids: int = 0
     sched: object = None             # None | ("rp"|"wp", [tids]) with progs in self.progs
     progs: list = field(default_factory=list)  # Level B: (tid, [ops])
+    ra: bool = False                 # Level B: runs of releases of one thread are atomic (second comparison)
     meta: dict = field(default_factory=dict)
 
     # ---- harness text
@@ -65,6 +66,8 @@ class Scen:
             o.append("fp " + " ".join(f"{l} {k}" for l, k in self.fp))
         if self.unw:
             o.append("unw " + " ".join(map(str, self.unw)))
+        if self.ra:
+            o.append("ra")
         if self.sched:
             o.append(f"mode sched {self.sched[0]} " + " ".join(map(str, self.sched[1])))
             if len(self.sched) > 2 and self.sched[2]:
